@@ -266,6 +266,7 @@ class Session:
         self.r2m, self.m2r = {}, {}
         self.cmd_of_gid = {}    # model gid -> command text of the whole pipeline
         self.leader = {}        # model pid -> model pid of stage 0 of its launch
+        self.resumed = None     # the job an fg / bg just named (oracle O7)
         self.fg_gid = None      # the job the shell should be waiting for (driver's own bookkeeping, for the oracle)
         self.nextpid = 101
         self.serial = 0
@@ -365,6 +366,11 @@ class Session:
                     bad.append("O6run: job %d is shown Running while every live member is stopped" % gid)
             if it[0] == "job" and len(it) > 5 and self.cmd_of_gid.get(it[2]) not in (None, it[5]):
                 bad.append("O6cmd: job %d is shown with command text %r" % (it[2], it[5]))
+        if self.resumed is not None:
+            still = [mp for mp in ob["procs"] if self.leader[mp] == self.resumed and ob["procs"][mp][1] == "T"]
+            if still:
+                bad.append("O7: member(s) %s of job %d are still stopped after fg/bg" % (still, self.resumed))
+            self.resumed = None
         if action == "J" and at_prompt:
             listed = set(it[2] for it in items if it[0] == "job" and it[3] in ("Running", "Stopped"))
             livej = set(self.leader[mp] for mp in ob["procs"] if ob["procs"][mp][1] in ("R", "T"))
@@ -480,6 +486,7 @@ class Session:
         for j in st0["jobs"]:
             if j["id"] == tgt:
                 self.fg_gid = j["gid"]
+                self.resumed = j["gid"]
                 if self.jobsize(j["gid"]) >= 2:
                     self.classes.add("member_stop")
         st = self.feed("F:%s:%d" % ("-" if arg is None else arg, pick))
@@ -588,6 +595,9 @@ class Session:
                             return self.simple("", "E")
                     return self.fg(arg, pick)
                 line = "bg" if arg is None else "bg %d" % arg
+                for j in st["jobs"]:
+                    if j["id"] == (arg if arg is not None else pick):
+                        self.resumed = j["gid"]
                 return self.simple(line, "G:%s:%d" % ("-" if arg is None else arg, pick))
             if c == "sigjob":
                 # a signal to every live member of one job, one after the other (nothing is polled in between)
@@ -655,11 +665,13 @@ class Session:
             self.begin()
             self.type_line(line)
             self.fg_gid = mg
+            self.resumed = mg
             if self.jobsize(mg) >= 2:
                 self.classes.add("member_stop")
             st = self.feed("F:%d:0" % mg)
             self.expect(True)
             return self.check("type %r" % line, "F")
+        self.resumed = mg
         return self.simple(line, "G:%d:0" % mg)
 
     def is_jc(self, mp):
@@ -702,6 +714,31 @@ class Session:
             ok = ok and self.simple("jobs", "J")   # listed Running, the only live member is stopped
             ok = ok and self.sig(a, 9)
             ok = ok and self.simple("", "E")
+        elif name == "fg_multi":
+            # no known class: a stopped two-process background job is brought to the foreground and ends member by member
+            ok = self.launch([("jc", 0), ("jc", 0)], True)
+            a, b = self.nextpid - 2, self.nextpid - 1
+            ok = ok and self.sig(a, 19)
+            ok = ok and self.sig(b, 19)
+            ok = ok and self.simple("", "E")
+            ok = ok and self.simple("jobs", "J")
+            ok = ok and self.fg(1, 0)
+            ok = ok and self.ask_exit(a, 0)
+            ok = ok and self.ask_exit(b, 0)
+            ok = ok and self.simple("jobs", "J")
+        elif name == "ctrlz_bg_fg":
+            ok = self.launch([("jc", 0), ("jc", 0)], False)
+            ok = ok and self.key("Z")
+            ok = ok and self.simple("jobs", "J")
+            if self.st["prompt"]:
+                self.resumed = self.nextpid - 2
+                ok = ok and self.simple("bg", "G:-:1")
+                ok = ok and self.simple("jobs", "J")
+                ok = ok and self.fg(None, 1)
+            ok = ok and self.key("C")
+            if not self.st["prompt"]:      # a stage outside the group survives Ctrl-C
+                for mp in self.job_members(self.st, self.nextpid - 2):
+                    ok = ok and self.sig(mp, 9)
         elif name == "partial_continue":
             ok = self.launch([("jc", 0), ("jc", 0)], True)
             a, b = self.nextpid - 2, self.nextpid - 1
@@ -767,7 +804,7 @@ def attribute(code, classes):
     """which recorded defect explains this oracle failure in a session with these features"""
     if code == "O3":
         return "stage_outside_group" if "stage_outside_group" in classes else None
-    if code == "O2":
+    if code in ("O2", "O7"):
         return "stage_outside_group" if "stage_outside_group" in classes else None
     if code == "O5":
         return "count_waited" if "member_stop" in classes else None
@@ -811,7 +848,7 @@ def run(ctx, res):
     for i in range(nmain):
         plans.append({"kind": "random", "n": ctx.rng.randrange(5, 26), "seed": ctx.rng.randrange(1 << 30)})
     for r in range(reps):
-        for name in ["count_waited", "stop_cont_parked", "exit_among_stopped", "partial_continue"]:
+        for name in ["count_waited", "stop_cont_parked", "exit_among_stopped", "partial_continue", "fg_multi", "ctrlz_bg_fg"]:
             plans.append({"kind": "scripted", "name": name, "seed": ctx.rng.randrange(1 << 30)})
     if ctx.replay:
         rp = json.load(open(ctx.replay))
@@ -868,15 +905,20 @@ def run(ctx, res):
             pre = [t if t else "<empty line>" for t in r["typed"][:step]]
             return ("... ; " if len(pre) > 12 else "") + "; ".join(pre[-12:])
         if r["mismatch"]:
-            if not unattributed and r["classes"]:
-                accepted.append({"classes": r["classes"], "typed": r["typed"], "note": "implementation differs from the faithful "
-                                 "model in a session of a known class and fails the property oracle nowhere else (repaired)"})
+            at = r["mismatch"]["step"]
+            wrong = [(msg, do) for c, msg, do in attributed if do >= at] + [x for x in unattributed if x[1] < at]
+            if not wrong and r["classes"]:
+                accepted.append({"classes": r["classes"], "typed": r["typed"], "note": "the implementation leaves the faithful "
+                                 "model in a session of a known class and satisfies the property oracle there (repaired)"})
+                for c, msg, do in attributed:
+                    if c is not None and c in known:
+                        res.known(c, 'class=%s input="%s" what=%s' % (c, upto(do), msg))
                 continue
-            res.violate(kind="model-vs-implementation", failing_input=bool(unattributed), input=r["typed"],
+            res.violate(kind="model-vs-implementation", failing_input=bool(wrong), input=r["typed"],
                         expected=r["mismatch"]["model"], observed=r["mismatch"]["observed"], detail=r["mismatch"],
-                        oracle=unattributed[:3], replay=replay,
+                        oracle=wrong[:3], replay=replay,
                         note="typed lines / keys / signals of the session, in order; the first step where the real shell and "
-                             "the model disagree is in detail")
+                             "the model disagree is in detail; oracle = what the observation itself violates")
             continue
         for c, msg, do in attributed:
             if c is not None and c in known:
